@@ -68,6 +68,7 @@ struct JwkOpts {
 	bool ec_minimal = false;  // EC coordinates minimal-length instead of fixed width
 	std::vector<std::pair<std::string, std::string>> extra; // member name -> raw JSON text
 	bool rsa_partial_priv = false; // only d (no CRT params) - libjwt must flag it
+	int oct_pad = 0;          // oct k: 1 = '=' padding to a multiple of four, 2 = '=' followed by more characters
 };
 // Returns the JWK as a jansson object (caller decrefs); NULL on internal error.
 json_t *jwk_export_json(const KeyTruth &k, const JwkOpts &o);
